@@ -267,7 +267,8 @@ theorem chain_reports_assembly_line (genes : List Gene) (h : ∀ g ∈ genes, In
 /-- 8c. merging only between direct neighbours: with a separator put into the assembly line
     wherever two consecutive genes with domains are *not* direct neighbours in the iteration order
     (a gene in between, even one without domains), or lie in different regions, or on different
-    strands, the loop still keeps the line; every reported module is a contiguous, separator-free
+    strands, or one of them has hits but no module of its own (only docking/COM domains or only
+    motif hits — `generate_domains` then still sets `prev` to it), the loop still keeps the line; every reported module is a contiguous, separator-free
     block of it.  Hence a cross-gene module only ever joins the trailing module of the upstream
     gene with the leading module of the *adjacent, same-region, same-strand* downstream gene.
     `Consec 0 genes`: the `index` fields number the genes 0, 1, 2, … (their iteration order). -/
@@ -456,12 +457,15 @@ example : (match Hmm.validate (.mk "PKS_KS" 0 100 0 50 [.mk "x" 100 120 0 10 []]
 
 
 /-! ### non-vacuity for 8c: a gene without domains between two genes puts a separator into the line -/
-example : Spec.chainLine [⟨0, 1, 0, leftComps⟩, ⟨2, 1, 0, rightComps⟩] = leftComps ++ [Spec.sepComp] ++ rightComps := by
+example : Spec.chainLine [⟨0, 1, 0, leftComps, false⟩, ⟨2, 1, 0, rightComps, false⟩] = leftComps ++ [Spec.sepComp] ++ rightComps := by
   decide
-example : Spec.chainLine [⟨0, 1, 0, leftComps⟩, ⟨1, 1, 0, rightComps⟩] = leftComps ++ rightComps := by decide
-example : Spec.chainLine [⟨0, -1, 0, leftComps⟩, ⟨1, -1, 0, rightComps⟩] = rightComps ++ leftComps := by decide
-example : Spec.chainLine [⟨0, -1, 0, leftComps⟩, ⟨1, -1, 1, rightComps⟩] = leftComps ++ [Spec.sepComp] ++ rightComps := by
+example : Spec.chainLine [⟨0, 1, 0, leftComps, false⟩, ⟨1, 1, 0, rightComps, false⟩] = leftComps ++ rightComps := by decide
+example : Spec.chainLine [⟨0, -1, 0, leftComps, false⟩, ⟨1, -1, 0, rightComps, false⟩] = rightComps ++ leftComps := by decide
+example : Spec.chainLine [⟨0, -1, 0, leftComps, false⟩, ⟨1, -1, 1, rightComps, false⟩] = leftComps ++ [Spec.sepComp] ++ rightComps := by
   decide
+/-- a gene with hits but no module of its own (only docking domains) between two genes is a barrier -/
+example : Spec.chainLine [⟨0, 1, 0, leftComps, false⟩, ⟨1, 1, 0, [], true⟩, ⟨2, 1, 0, rightComps, false⟩]
+    = leftComps ++ [Spec.sepComp] ++ [Spec.sepComp] ++ rightComps := by decide
 example : Consec 0 [⟨"a", 1, 0, [], false, 0⟩, ⟨"b", 1, 0, [], false, 1⟩] := ⟨rfl, rfl, trivial⟩
 
 end ASV.C14
